@@ -41,11 +41,14 @@ Mul(act, arg, t) ==
          /\ prog' = Append(prog, Step(act, arg, "TypeError"))
     ELSE /\ last' = "ok"
          /\ wf' = r
-         /\ tilted' = (tilted \/ (act = "MulClass" /\ t = "tilt"))   \* only tilt *elements* attach metadata
+         /\ tilted' = (tilted \/ (act = "MulClass" /\ t = "tilt") \/ act = "MulTypedTilt")   \* only tilt *elements* attach metadata
          /\ prog' = Append(prog, Step(act, arg, r))
 
 MulType(t)  == Mul("MulType", t, t)
 MulClass(c) == Mul("MulClass", c, ClassPType[c])
+\* a tilt ELEMENT constructed with the explicit ptype keyword its interface documents: it has that type in the table (it is refused
+\* where a plane of that type is refused) and, being a tilt element, attaches its tilt metadata where it is accepted
+MulTypedTilt(t) == Mul("MulTypedTilt", t, t)
 
 \* far-field propagation; the FFT propagator additionally refuses tilt metadata
 Propagate(m) ==
@@ -71,8 +74,9 @@ Init == /\ wf \in WfTypes
 More == Len(prog) <= MaxLen
 DoMulType   == More /\ \E t \in PlaneTypes : MulType(t)
 DoMulClass  == More /\ \E c \in Classes : MulClass(c)
+DoMulTypedTilt == More /\ \E t \in PlaneTypes : MulTypedTilt(t)
 DoPropagate == More /\ \E m \in {"dft", "fft"} : Propagate(m)
-Next == DoMulType \/ DoMulClass \/ DoPropagate
+Next == DoMulType \/ DoMulClass \/ DoMulTypedTilt \/ DoPropagate
 
 Spec == Init /\ [][Next]_vars
 
